@@ -35,6 +35,7 @@ import (
 func TestC28(t *testing.T) {
 	tr := vt.Open(t)
 	defer tr.Close()
+	defer CleanupFastScratch()
 	var id int64
 	run := func(c vt.Case) {
 		id++
@@ -85,7 +86,7 @@ func runC28(t *testing.T, tr *vt.Tracer, caseID int64, c vt.Case) {
 	crashes := vt.Ints(c["crashes"])
 	rnd := rand.New(rand.NewSource(vt.Int64(c["bseed"])))
 
-	dir, err := os.MkdirTemp(ScratchDir(), "c28-")
+	dir, err := os.MkdirTemp(FastScratchDir(), "c28-")
 	if err != nil {
 		t.Fatal(err)
 	}
